@@ -390,9 +390,12 @@ static const SeqOp seqOps[] = {
     {oCstr, false, {}},
     {oRawAppend, false, {1, 1}},
 };
-template <class W> static void seqStep(W &w, const unsigned K)
+// the operations that can expose a stale sharing state (used for the last step of the thorough tier's 3-step sequences)
+static const unsigned revealing[] = {0, 1, 5, 7, 8, 11, 13, 17, 18, 19, 21, 22};
+template <class W> static void seqStep(W &w, const unsigned K, const bool revealingOnly = false)
 {
-    const unsigned code = pick(sizeof(seqOps) / sizeof(*seqOps), "op"), t = pick(K, "target");
+    const unsigned code = revealingOnly ? revealing[pick(sizeof(revealing) / sizeof(*revealing), "op")] : pick(sizeof(seqOps) / sizeof(*seqOps), "op");
+    const unsigned t = pick(K, "target");
     const SeqOp &so = seqOps[code];
     script = so.args;
     w.apply(so.op, t, so.other ? (t + 1) % K : t);
@@ -404,15 +407,11 @@ extern "C" void c48_seq(void)
     vf_quiet();
     claimPrototype();
     World<40, 2> w;
-#ifdef VF_THOROUGH
-    shape(w, pick(N_SHAPES, "shape"), 3, 1);
-#else
     static const unsigned seqShapes[] = {shCopy, shTail, shGrown};
     shape(w, seqShapes[pick(3, "shape")], 3, 1);
-#endif
     w.verify();
     const SBufStats before = SBuf::GetStats();
-    for (unsigned i = 0; i < SEQ_STEPS; ++i) seqStep(w, 2);
+    for (unsigned i = 0; i < SEQ_STEPS; ++i) seqStep(w, 2, i == 2);
     statsReach(before);
     vf_reach("done");
     WITNESS_POINT();
@@ -463,7 +462,11 @@ extern "C" void c48_big(void)
         {oAppendCstr, false, {}},
     };
     for (unsigned i = 0; i < 2; ++i) {
+#ifdef VF_THOROUGH
         const unsigned code = pick(sizeof(bigOps) / sizeof(*bigOps), "op"), t = i ? 0 : pick(2, "target");
+#else
+        const unsigned code = pick(i ? 4 : sizeof(bigOps) / sizeof(*bigOps), "op"), t = i ? 0 : pick(2, "target"); // second: append char/self/other/own raw pointer
+#endif
         script = bigOps[code].args;
         w.apply(bigOps[code].op, t, bigOps[code].other ? 1 - t : t);
         script = nullptr;
